@@ -68,7 +68,7 @@ def fail(report, clause, trigger, case, impl=None, detail=""):
 def translate():
     from translator import registry
 
-    return registry.generate("Confidence")
+    return registry.generate("Confidence", "KernelsConf")
 
 
 # ------------------------------------------------------------------------------------------------
@@ -854,8 +854,98 @@ def translator_cross_check(report, status):
         status.problem("translator", f"registered methods {gen['registered']} differ from the live registry {sorted(A.confidence_methods_avail)}")
 
 
+def kernel_cross_check(ctx, report, status):
+    """The REAL compiled `compute_ambiguity`, `compute_risk`, `compute_interval_bounds` on a few hundred small cost volumes
+    against the translator's exact reading of their source (`pyvec.evaluate_px` on the per-pixel tree the Lean text of
+    Generated/KernelsConf.lean is printed from; Lean's own reading of that text is checked at build time by the generated
+    `example`s).  Dyadic data: every float operation of the kernels is exact, so the comparison is exact (the eta-means of
+    the risk are one float64 division stored as float32: the exact value is rounded the same way).  A mismatch means the
+    translator misreads Python/numpy -> `status.problem("translator", …)`."""
+    import random
+
+    from translator import gen_kernels_conf, pyvec
+
+    try:
+        ks = gen_kernels_conf.kernels(strict=False)
+    except Exception:  # already reported by build_and_audit (translate())  # pylint: disable=broad-except
+        return
+    for name, why in getattr(gen_kernels_conf.kernels, "problems", {}).items():
+        report.notes.append(f"translator: {name} is outside the subset: {why}"[:300])
+    from pandora.cost_volume_confidence import ambiguity, interval_bounds, risk
+
+    report.translator_checks += 1
+    rng = random.Random(ctx.seed * 104729 + 12)  # its own stream: the streams of `run` keep their cases
+
+    def fl(x):
+        x = float(x)
+        return pyvec.FNAN if math.isnan(x) else (pyvec.PINF if x == math.inf else pyvec.NINF if x == -math.inf else Fraction(x))
+
+    def same(exact_val, real):  # exact value of the reading vs a float32 cell
+        if isinstance(exact_val, str):
+            return fl(real) == exact_val
+        return not math.isnan(float(real)) and float(np.float32(float(exact_val))) == float(real)
+
+    problems = 0
+    for _ in range(ctx.n(160, 1500)):
+        cost, disp = gen_volume(rng, max_rows=3, max_cols=4, max_disp=7)
+        cost = np.ascontiguousarray(cost, dtype=np.float32)
+        if not np.isfinite(cost).any():
+            continue
+        if rng.random() < 0.05:
+            cost[...] = np.where(np.isnan(cost), np.nan, cost[np.isfinite(cost)][0])  # a constant volume: 0/0
+        eta_max, eta_step = rng.choice(DYADIC_ETA)
+        thr = rng.choice(THRESHOLDS)
+        tf = rng.choice([-1.0, 1.0])
+        etas = cf.numba_etas(float(eta_max), float(eta_step))
+        f4 = np.float32
+        args = (f4(0.0), f4(float(eta_max)), f4(float(eta_step)))
+        gmin, gmax = fl(np.nanmin(cost)), fl(np.nanmax(cost))
+        dispf = np.array([float(d) for d in disp], dtype=np.float32)
+        with np.errstate(all="ignore"):
+            amb = ambiguity.Ambiguity.compute_ambiguity(cost, *args)
+            _, sampled = ambiguity.Ambiguity.compute_ambiguity_and_sampled_ambiguity(cost, *args)
+            rmax, rmin = risk.Risk.compute_risk(cost, sampled, *args)
+            binf, bsup = interval_bounds.IntervalBounds.compute_interval_bounds(cost, dispf, f4(float(thr)), f4(tf))
+        report.count("kernel_translation_calls")
+        for r in range(cost.shape[0]):
+            for c in range(cost.shape[1]):
+                curve = [fl(x) for x in cost[r, c, :]]
+                base = {"min_cost": gmin, "max_cost": gmax}
+                got = {}
+                want = {"computeAmbiguityPx": [amb[r, c]], "computeRiskPx": [rmax[r, c], rmin[r, c]],
+                        "computeIntervalBoundsPx": [binf[r, c], bsup[r, c]]}
+                for name, k in ks.items():
+                    a = {}
+                    for n, _, role in k.lean_params:
+                        kind, _, what = role.partition(":")
+                        if kind == "slice":
+                            a[n] = curve if what == "cv" else [fl(x) for x in sampled[r, c, :]]
+                        elif kind == "whole":
+                            a[n] = [fl(x) for x in dispf]
+                        elif kind == "gmin":
+                            a[n] = gmin
+                        elif kind == "gmax":
+                            a[n] = gmax
+                        elif kind == "arange":
+                            a[n] = list(etas)
+                        elif kind == "scalar":
+                            a[n] = {"possibility_threshold": Fraction(float(f4(float(thr)))), "type_factor": Fraction(tf)}[what]
+                    try:
+                        res, vals = pyvec.evaluate_px(k, a)
+                    except Exception as exc:  # pylint: disable=broad-except
+                        res, vals = f"{type(exc).__name__}: {exc}", None
+                    got[name] = (res, vals)
+                    if res != "ok" or len(vals) != len(want[name]) or not all(same(v, w) for v, w in zip(vals, want[name])):
+                        problems += 1
+                        if problems <= 3:
+                            status.problem("translator", f"translated {k.py_name} evaluates differently from the real kernel on curve={cost[r, c, :].tolist()} "
+                                           f"min={gmin} max={gmax} etas={[str(e) for e in etas]} threshold={thr} type_factor={tf}",
+                                           f"real={[float(x) for x in want[name]]} reading={res} {[str(v) for v in (vals or [])]}")
+
+
 def run(ctx, report, status):
     translator_cross_check(report, status)
+    kernel_cross_check(ctx, report, status)
     report.rule = (
         "kernels: random 1-5 x 1-7 x 1-9 cost volumes (integer / quarter / few-valued / ramp costs, global range a power of two, "
         "NaN holes, all-NaN pixels, missing planes, full ties), min and max measures, dyadic eta grids and thresholds -> exact "
